@@ -34,6 +34,10 @@ func cmdDump(args []string) int {
 		dumpBoolLoops(&Ctx{P: p})
 		return 0
 	}
+	if pat == "-firstindex" {
+		dumpFirstIndex(&Ctx{P: p})
+		return 0
+	}
 	if pat == "-localarrays" {
 		dumpLocalArrays(&Ctx{P: p})
 		return 0
